@@ -11,6 +11,12 @@ def respCases : List (List Int) :=
    [14],
    [3]]
 
+/-- case labels of `switch block.Err` in offset_manager.go (*offsetManager).fetchInitialOffset, one list per clause in source order (default omitted) -/
+def fetchCases : List (List Int) :=
+  [[0],
+   [16],
+   [14]]
+
 /-- generated from offset_manager.go (*partitionOffsetManager).MarkOffset -/
 def markOffset (pOffset : Int) (pMeta : Int) (pDirty : Bool) (offset : Int) (metadata : Int) : Int × Int × Bool :=
   if (offset > pOffset) then
